@@ -95,6 +95,60 @@ def run_cmd(cmd, env=None, cwd=None, timeout=3600, stdin=None):
         return None, ex.stdout or b"", ex.stderr or b"", time.time() - t0
 
 
+def repo_content_hash():
+    """Content hash of everything in the repository that a build reads (not mtimes)."""
+    h = hashlib.sha256()
+    roots = ["Cargo.toml", "Cargo.lock", "build.rs", "src", "py", "tests/data"]
+    for r in roots:
+        p = os.path.join(REPO, r)
+        if os.path.isfile(p):
+            files = [p]
+        else:
+            files = []
+            for dp, dn, fn in os.walk(p):
+                dn.sort()
+                files += [os.path.join(dp, f) for f in sorted(fn)]
+        for f in files:
+            try:
+                h.update(os.path.relpath(f, REPO).encode() + b"\0" + open(f, "rb").read() + b"\0")
+            except OSError:
+                pass
+    return h.hexdigest()
+
+
+def ensure_fresh(tdir):
+    """cargo decides freshness by mtime: a working tree restored with *older* timestamps (rsync -a, cp -p
+    of a pristine copy over a changed one) would be taken for unchanged and the stale objects of the
+    previous tree would be linked. So: whenever the content of the repository differs from what this
+    target directory was last built from, the fingerprints of the crate under test are removed, which
+    makes cargo recompile it (and everything that depends on it) from the current files."""
+    want = repo_content_hash()
+    mark = os.path.join(tdir, ".repo-content-hash")
+    try:
+        have = open(mark).read().strip()
+    except OSError:
+        have = ""
+    if have != want:
+        for dp, dn, fn in os.walk(tdir):
+            if os.path.basename(dp) == ".fingerprint":
+                for d in list(dn):
+                    if d.startswith("jsonlogic-rs-") or d.startswith("jsonlogic_rs-") or d.startswith("jlmon-"):
+                        shutil.rmtree(os.path.join(dp, d), ignore_errors=True)
+                dn[:] = []
+        try:
+            os.unlink(mark)
+        except OSError:
+            pass
+    return mark, want
+
+
+def mark_fresh(mk):
+    mark, want = mk
+    os.makedirs(os.path.dirname(mark), exist_ok=True)
+    with open(mark, "w") as f:
+        f.write(want)
+
+
 def build_lane(lane):
     """(Re)build one in-process lane from /repo's current working tree. Returns the binary."""
     ensure_lock()
@@ -102,10 +156,12 @@ def build_lane(lane):
     tdir = os.path.join(TARGET, lane)
     env = dict(env)
     env["CARGO_TARGET_DIR"] = tdir
+    mk = ensure_fresh(tdir)
     rc, out, err, dt = run_cmd(["cargo"] + args, env=env, cwd=harness_dir(), timeout=3000)
     if rc != 0:
         sys.stderr.write(err.decode("utf8", "replace")[-4000:])
         raise Inconclusive("build of lane %s failed (rc=%s)" % (lane, rc))
+    mark_fresh(mk)
     binary = os.path.join(tdir, rel)
     if not os.path.exists(binary):
         raise Inconclusive("lane %s built but %s is missing" % (lane, binary))
@@ -121,11 +177,13 @@ def build_miri():
     ensure_lock()
     env = dict(MIRI_ENV)
     env["MIRIFLAGS"] = "-Zmiri-disable-isolation"
+    mk = ensure_fresh(MIRI_ENV["CARGO_TARGET_DIR"])
     rc, out, err, dt = run_cmd(["cargo", "+nightly", "miri", "run", "--offline", "--no-default-features", "--", "miri-ping"],
                                env=env, cwd=harness_dir(), timeout=3000)
     if rc != 0 or b"miri-pong" not in out:
         sys.stderr.write(err.decode("utf8", "replace")[-3000:])
         raise Inconclusive("the Miri lane could not be built / started (rc=%s)" % rc)
+    mark_fresh(mk)
     log("[build] lane=miri ok (%.1fs)" % dt)
 
 
@@ -165,10 +223,12 @@ def build_cli(profile):
            "--manifest-path", os.path.join(REPO, "Cargo.toml"), "--target-dir", tdir]
     if profile == "release":
         cmd.append("--release")
+    mk = ensure_fresh(os.path.join(tdir, profile))
     rc, out, err, dt = run_cmd(cmd, timeout=3000)
     if rc != 0:
         sys.stderr.write(err.decode("utf8", "replace")[-4000:])
         raise Inconclusive("build of the CLI (%s) failed" % profile)
+    mark_fresh(mk)
     binary = os.path.join(tdir, profile, "jsonlogic")
     log("[build] cli-%s ok (%.1fs)" % (profile, dt))
     return binary
@@ -182,10 +242,12 @@ def build_py(profile):
     if profile == "release":
         cmd.append("--release")
     env = {"PYTHON_SYS_EXECUTABLE": sys.executable}
+    mk = ensure_fresh(os.path.join(tdir, profile))
     rc, out, err, dt = run_cmd(cmd, env=env, timeout=3000)
     if rc != 0:
         sys.stderr.write(err.decode("utf8", "replace")[-4000:])
         raise Inconclusive("build of the Python extension (%s) failed" % profile)
+    mark_fresh(mk)
     so = os.path.join(tdir, profile, "libjsonlogic_rs.so")
     pkg_root = os.path.join(OUT, "pypkg-" + profile)
     pkg = os.path.join(pkg_root, "jsonlogic_rs")
